@@ -672,6 +672,11 @@ func regexExpressionToBloomFieldExpression(expression *RegexExpression) *BloomEx
 			child := regexExpressionToBloomFieldExpression(&expression.Children[i])
 			if child != nil {
 				children = append(children, *child)
+			} else {
+				// No field to guard on (a condition node without a condition
+				// is constant true): keep a constant-true child so an OR over
+				// it cannot be disqualified by the remaining fields.
+				children = append(children, BloomExpression{ExpressionType: BloomExpressionCondition})
 			}
 		}
 		return &BloomExpression{
@@ -684,6 +689,11 @@ func regexExpressionToBloomFieldExpression(expression *RegexExpression) *BloomEx
 			child := regexExpressionToBloomFieldExpression(&expression.Children[i])
 			if child != nil {
 				children = append(children, *child)
+			} else {
+				// No field to guard on (a condition node without a condition
+				// is constant true): keep a constant-true child so an OR over
+				// it cannot be disqualified by the remaining fields.
+				children = append(children, BloomExpression{ExpressionType: BloomExpressionCondition})
 			}
 		}
 		return &BloomExpression{
